@@ -114,6 +114,8 @@ class Real:
                 c.mean = MEAN[op["v"]]
             else:
                 c.trend = MEAN[op["v"]]
+        elif n == "KrigeCall":
+            c.krige(target(op["p"], self.dim, cpos_all))
         elif n == "DeleteFields":
             c.delete_fields()
         else:
@@ -128,7 +130,7 @@ def since_last_compare(hist):
         if op["name"] == "Call" and op.get("compare"):
             break
         kinds.add(op["name"] + (".refresh" if op["name"] == "SetCondition" and op["refresh"] else ""))
-    out = [k for k in ("SetCondition", "SetCondition.refresh", "SetPos", "DeleteFields") if k in kinds]
+    out = [k for k in ("SetCondition", "SetCondition.refresh", "SetPos", "KrigeCall", "DeleteFields") if k in kinds]
     if kinds & {"ChangeModel", "ChangeMean"}:
         out.append("Change")
     return "+".join(out) or "none"
@@ -208,11 +210,14 @@ def replay(col, gs, variant, dim, beh, origin, nugget=0.0, big=False):
     return ncmp
 
 
-def mc_text(name, clear=True, size="mc"):
-    defs = {"CPos": "{1, 2}", "CVal": "{1, 2}", "Models": "{1, 2, 3}", "Means": "{1, 2}", "Poss": "{1, 2, 3}",
+def mc_text(name, clear=True, size="mc", own=True):
+    defs = {"ReuseNeedsOwnResult": "TRUE" if own else "FALSE",
+            "CPos": "{1, 2}", "CVal": "{1, 2}", "Models": "{1, 2, 3}", "Means": "{1, 2}", "Poss": "{1, 2, 3}",
             "Seeds": "{1, 2}", "ClearOnSetCondition": "TRUE" if clear else "FALSE"}
     if size == "gen":
         defs.update({"CVal": "{1}", "Seeds": "{1}"})
+    if size == "mcquick":   # exhaustive design check of the quick tier
+        defs.update({"CVal": "{1}", "Seeds": "{1}", "Models": "{1, 2}", "Poss": "{1, 2}"})
     mod = "---- MODULE %s ----\nEXTENDS CondCache\n" % name + "".join("Mc%s == %s\n" % kv for kv in defs.items())
     mod += 'DepthBound == TLCGet("level") <= 5\nGenInit == Init /\\ cfg = [cpos |-> 1, cval |-> 1, model |-> 1, mean |-> 1] /\\ seed = 1\n====\n'
     cfg = "CONSTANTS\n" + "".join(" %s <- Mc%s\n" % (k, k) for k in defs)
@@ -264,8 +269,8 @@ def run(pid, tier, seed, replay=None):
     with tlc.Scratch() as sc:
         os.makedirs(sc.path("sim"), exist_ok=True)
         jobs = []
-        for nm, clear in (("MC_cc", True), ("NEG_cc", False)):
-            mod, cfg = mc_text(nm, clear)
+        for nm, clear, own in (("MC_cc", True, True), ("NEG_cc", False, True), ("NEG2_cc", True, False)):
+            mod, cfg = mc_text(nm, clear, "mc" if thorough else "mcquick", own=own)
             sc.write(nm + ".tla", mod)
             jobs.append((nm, sc, nm, cfg + "INIT Init\nNEXT Next\nVIEW View\nINVARIANT Coherent\nINVARIANT MatrixCurrent\n",
                          dict(workers=4, timeout=1800)))
@@ -280,9 +285,10 @@ def run(pid, tier, seed, replay=None):
         res = tlc.run_many(jobs, parallel=4)
         for nm, r in res.items():
             tlc.must_pass(r, nm)
-        if res["NEG_cc"].error is None:
-            raise tlc.MachineryError("vacuity: CondCache does not detect stale reuse when set_condition keeps the stored fields")
-        rep.extra["non_vacuity"] = "with ClearOnSetCondition = FALSE (the code before the fix) TLC reports %s %s" % res["NEG_cc"].error
+        if res["NEG_cc"].error is None or res["NEG2_cc"].error is None:
+            raise tlc.MachineryError("vacuity: CondCache does not detect stale reuse when a repaired defect is switched back on")
+        rep.extra["non_vacuity"] = ("with ClearOnSetCondition = FALSE TLC reports %s %s; with ReuseNeedsOwnResult = FALSE TLC reports %s %s"
+                                    % (res["NEG_cc"].error + res["NEG2_cc"].error))
         for nm in ("MC_cc", "G_cc", "S_cc"):
             rep.add_tlc("CondCache." + nm, res[nm])
         if res["MC_cc"].error:
